@@ -10,7 +10,7 @@ Import ListNotations.
 
 Definition id := N.  Definition sid := nat.  Definition ptr := nat.  Definition tid := nat.
 
-Inductive res := AccOk (n:id) (s:sid) | AccTimeout (n:id) | DialOk (n:id) (s:sid) | DialErr (n:id) | Ended.
+Inductive res := AccOk (n:id) (s:sid) | AccTimeout (n:id) | DialOk (n:id) (s:sid) | DialErr (n:id) | Sent (n:id) (s:sid) | Ended.
 Inductive pc :=
 | DialWait (n:id) (s:sid)                       (* Dial: header written, waiting for the ack *)
 | RunRead                                       (* Run: waiting for the next inbound stream *)
@@ -32,7 +32,13 @@ Record st := { owners : list id; bufs : list (option sid); dones : list bool;
 (* shape of the code the proofs depend on, filled from Generated.v *)
 Record params := {
   drain_has_default : bool;    (* the receive in timeoutWait under the mutex is in a select with default *)
-  run_closes_dropped : bool    (* Run closes a stream it cannot park (slot already full) *)
+  run_closes_dropped : bool;   (* Run closes a stream it cannot park (slot already full) *)
+  (* The same pending-slot machinery serves the gRPC broker without multiplexing (grpc_broker.go), with the
+     roles renamed: the "dialer" of this model is GRPCBroker.Accept (it SENDS connection info for an id and
+     does not wait for anything), the "acceptor" is GRPCBroker.Dial (it takes the info filed under its id). *)
+  sender_waits_ack : bool;     (* MuxBroker.Dial waits for the ack; GRPCBroker.Accept returns after Send *)
+  taker_timeout_deletes : bool;(* MuxBroker.Accept deletes its slot when it times out; GRPCBroker.Dial does not *)
+  expiry_drains : bool         (* MuxBroker.timeoutWait drains the slot under the mutex; GRPCBroker.timeoutWait only deletes *)
 }.
 
 Definition set_owners (s : st) (x : list id) : st := {| owners := x; bufs := bufs s; dones := dones s; hdrs := hdrs s; acks := acks s; closed := closed s; takers := takers s; smap := smap s; lock := lock s; nacc := nacc s; thr := thr s; ntid := ntid s |}.
@@ -86,7 +92,7 @@ Definition step (P:params) (s:st) (a:label) : option st :=
   match a with
   | Call o =>
     match o with
-    | OpDial n => Some (spawn (new_stream s n) (DialWait n (length (hdrs s))))
+    | OpDial n => Some (spawn (new_stream s n) (if sender_waits_ack P then DialWait n (length (hdrs s)) else Done (Sent n (length (hdrs s)))))
     | OpAccept n => if lock_free s then let '(s',p) := get_stream s n in Some (spawn s' (AccWait n p)) else None
     | OpRun => Some (spawn s RunRead)
     end
@@ -120,7 +126,7 @@ Definition step (P:params) (s:st) (a:label) : option st :=
     | Some (TwWait k p) => match nth_error (dones s) p with Some true => Some (with_thr s t (TwLock k p false)) | _ => None end
     | Some (TwLock k p tmo) =>
         if lock_free s then
-          if tmo then Some (with_thr (set_lock (del_map s k) (Some t)) t (TwDrain k p))
+          if tmo && expiry_drains P then Some (with_thr (set_lock (del_map s k) (Some t)) t (TwDrain k p))
           else Some (with_thr (del_map s k) t (Done Ended))
         else None
     | Some (TwDrain k p) =>
@@ -132,7 +138,10 @@ Definition step (P:params) (s:st) (a:label) : option st :=
     end
   | Fire t =>
     match tlookup (thr s) t with
-    | Some (AccWait n p) => if lock_free s then Some (with_thr (del_map s n) t (Done (AccTimeout n))) else None
+    | Some (AccWait n p) =>
+        if taker_timeout_deletes P then
+          if lock_free s then Some (with_thr (del_map s n) t (Done (AccTimeout n))) else None
+        else Some (with_thr s t (Done (AccTimeout n)))
     | Some (TwWait k p) => Some (with_thr s t (TwLock k p true))
     | _ => None
     end
